@@ -177,6 +177,10 @@ struct TG<T: Toy> {
     lastfull: Vec<Vec<bool>>,
     /// negdig[c][k]: that recoding has a negative digit
     negdig: Vec<Vec<bool>>,
+    /// negall[k] / carryall[k]: the textbook recoding of k has a negative digit / a carry into the last digit for EVERY
+    /// window size 2..=min(16, nb-1) - labels that do not depend on which window the implementation picks
+    negall: Vec<bool>,
+    carryall: Vec<bool>,
     /// B = {O, G, -G, 5G, (a point outside the subgroup)}
     bset: Vec<usize>,
     /// K = {0, 1, 2, r-1, (r-1)/2, kcarry}
@@ -214,6 +218,10 @@ impl<T: Toy> TG<T> {
             lastfull[c] = (0..r).map(|k| model_recode(&BigUint::from(k), c, nb.div_ceil(c)).0.last().copied() == Some(1i128 << c)).collect();
             negdig[c] = (0..r).map(|k| model_recode(&BigUint::from(k), c, nb.div_ceil(c)).0.iter().any(|d| *d < 0)).collect();
         }
+        let cmax = 16.min(nb - 1);
+        let negall: Vec<bool> = (0..r as usize).map(|k| (2..=cmax).all(|c| negdig[c][k])).collect();
+        let carryall: Vec<bool> = (0..r as usize).map(|k| (2..=cmax).all(|c| carry[c][k])).collect();
+        ctx.validate(negall.iter().any(|x| *x) && carryall.iter().any(|x| *x), &format!("{}: some scalar has a negative digit / a carry into the last digit for every window size", t.name()));
         let gen = t.gen();
         // a point outside the prime-order subgroup, of maximal order
         let outside = (0..n).filter(|i| !t.insub(*i)).max_by_key(|i| (g.order(*i).unwrap_or(0), usize::MAX - *i));
@@ -233,7 +241,7 @@ impl<T: Toy> TG<T> {
         sorted.dedup();
         ctx.validate(sorted.len() == kset.len() && nb.div_ceil(3) >= 2, &format!("{}: scalar alphabet distinct", t.name()));
         let alpha: Vec<(usize, u64)> = bset.iter().flat_map(|b| kset.iter().map(move |k| (*b, *k))).collect();
-        TG { t, kp, nb, carry, lastfull, negdig, bset, kset, kcarry, alpha, outside }
+        TG { t, kp, nb, carry, lastfull, negdig, negall, carryall, bset, kset, kcarry, alpha, outside }
     }
     fn n(&self) -> usize {
         self.t.tab().n()
@@ -278,6 +286,9 @@ impl<T: Toy> TG<T> {
         if c <= 16 && ks.iter().any(|k| self.negdig[c][*k as usize]) {
             loc.class(if n < 32 { "negative_digit(c=3)" } else if n <= 64 { "negative_digit(c=5,6)" } else { "negative_digit(c>=7)" });
         }
+        // the same two facts without reference to the window rule (true for every window size 2..=min(16, bits-1))
+        loc.class_if(ks.iter().any(|k| self.negall[*k as usize]), "negative_digit(every_window_size)");
+        loc.class_if(ks.iter().any(|k| self.carryall[*k as usize]), "digit_carry_into_last_window(every_window_size)");
         loc.class_if(ks.iter().any(|k| *k == 1), "unit_scalar_shortcut");
         loc.class_if(ks.iter().any(|k| *k == 0), "zero_scalar");
         loc.class_if(pts.iter().any(|p| *p == g.id), "identity_base");
@@ -444,7 +455,7 @@ fn toy_len_mismatch<T: Toy>(ctx: &mut Ctx, tg: &TG<T>) {
             pairs.push((a, b));
         }
     }
-    pairs.extend([(0, 32), (32, 0), (1, 33), (33, 1), (64, 31), (31, 64), (257, 33), (33, 257)]);
+    pairs.extend([(0, 32), (32, 0), (1, 33), (33, 1), (64, 31), (31, 64), (257, 33), (33, 257), (70, 33), (33, 70), (129, 128)]);
     // self-validation: with content 0 every truncation length 0..=4 gives a different sum
     {
         let (p, k) = content(tg, 0, 4);
@@ -503,12 +514,19 @@ fn toy_len_mismatch<T: Toy>(ctx: &mut Ctx, tg: &TG<T>) {
         // the longer base stream is the library's stream convention); more scalars than bases is refused by assert
         let (bs, ss) = (bases.as_slice(), scalars.as_slice());
         if ns <= nb {
+            // which end of a LONGER base stream the scalars are paired with is not documented (only a code comment
+            // "align the streams"): pairing with the last ns bases or with the first ns bases are both accepted, the
+            // one observed is recorded
             let want_tail = tg.sum(&pts[nb - ns..], &ks);
-            loc.class_if(ns < nb, "msm_chunks:bases_longer_tail_aligned");
+            let want_front = tg.sum(&pts[..ns], &ks);
+            loc.class_if(ns < nb, "msm_chunks:bases_longer");
+            loc.class_if(ns < nb && ns >= 32, "msm_chunks:bases_longer_n>=32");
             let got = <T::G as VariableBaseMSM>::msm_chunks(&bs, &ss);
             let gi = tg.t.idx(&got);
-            loc.check_at(if ns == nb { "msm_chunks" } else { "msm_chunks_tail_aligned" }, gi == Some(want_tail), || {
-                format!("{}: got {:?} (oracle index {:?}) want {} = scalars against the LAST {ns} bases", desc(), got, gi, tg.pt(want_tail))
+            loc.class_if(ns < nb && want_tail != want_front && gi == Some(want_tail), "observed:msm_chunks_pairs_scalars_with_LAST_bases");
+            loc.class_if(ns < nb && want_tail != want_front && gi == Some(want_front), "observed:msm_chunks_pairs_scalars_with_FIRST_bases");
+            loc.check_at(if ns == nb { "msm_chunks" } else { "msm_chunks_bases_longer" }, gi == Some(want_tail) || gi == Some(want_front), || {
+                format!("{}: got {:?} (oracle index {:?}) want {} (scalars against the last {ns} bases) or {} (against the first {ns})", desc(), got, gi, tg.pt(want_tail), tg.pt(want_front))
             });
         } else {
             let res = catch_unwind(AssertUnwindSafe(|| <T::G as VariableBaseMSM>::msm_chunks(&bs, &ss)));
@@ -606,7 +624,7 @@ fn chunks_any<G: VariableBaseMSM>(bases: &[Base<G>], ks: &[Sc<G>], bkind: usize,
 }
 
 fn toy_streams<T: Toy>(ctx: &mut Ctx, tg: &TG<T>, big_streams: bool) {
-    let lens: Vec<(usize, usize)> = vec![(0, 0), (1, 1), (2, 2), (3, 3), (5, 5), (8, 8), (31, 31), (32, 32), (33, 33), (64, 64), (100, 100), (3, 1), (5, 2), (33, 31), (40, 32), (8, 0)];
+    let lens: Vec<(usize, usize)> = vec![(0, 0), (1, 1), (2, 2), (3, 3), (5, 5), (8, 8), (31, 31), (32, 32), (33, 33), (64, 64), (100, 100), (3, 1), (5, 2), (33, 31), (40, 32), (8, 0), (70, 33), (129, 128)];
     let nk = STREAM_KINDS.len() as u64;
     ctx.sweep(&format!("streams/{}", tg.t.name()), lens.len() as u64 * 3 * nk * nk, |i, loc| {
         let [il, v, bkind, skind] = unrank(i, [lens.len() as u64, 3, nk, nk]);
@@ -614,6 +632,7 @@ fn toy_streams<T: Toy>(ctx: &mut Ctx, tg: &TG<T>, big_streams: bool) {
         let (pts, _) = content(tg, v as usize, nb);
         let (_, ks) = content(tg, v as usize, ns);
         let want = tg.sum(&pts[nb - ns..], &ks);
+        let want_front = tg.sum(&pts[..ns], &ks);
         let bases = tg.bases(&pts);
         let scalars: Vec<Sc<T::G>> = ks.iter().map(|k| Sc::<T::G>::from(*k)).collect();
         let desc = || format!("{} msm_chunks |bases|={nb} ({}) |scalars|={ns} ({}) content variant {v}", tg.t.name(), STREAM_KINDS[bkind as usize], STREAM_KINDS[skind as usize]);
@@ -622,11 +641,15 @@ fn toy_streams<T: Toy>(ctx: &mut Ctx, tg: &TG<T>, big_streams: bool) {
         }
         tg.classify(loc, &pts[nb - ns..], &ks, want);
         loc.class_if(bkind >= 2 || skind >= 2, "msm_chunks:custom_stream");
-        loc.class_if(ns < nb, "msm_chunks:bases_longer_tail_aligned");
+        loc.class_if(ns < nb, "msm_chunks:bases_longer");
+        loc.class_if(ns < nb && ns >= 32, "msm_chunks:bases_longer_n>=32");
         let got = chunks_any::<T::G>(&bases, &scalars, bkind as usize, skind as usize);
         let gi = tg.t.idx(&got);
-        loc.check_at(if ns == nb { "msm_chunks" } else { "msm_chunks_tail_aligned" }, gi == Some(want), || {
-            format!("{}: got {:?} (oracle index {:?}) want {}", desc(), got, gi, tg.pt(want))
+        // (undocumented alignment of a longer base stream: last-ns and first-ns pairing both accepted, see len_mismatch)
+        loc.class_if(ns < nb && want != want_front && gi == Some(want), "observed:msm_chunks_pairs_scalars_with_LAST_bases");
+        loc.class_if(ns < nb && want != want_front && gi == Some(want_front), "observed:msm_chunks_pairs_scalars_with_FIRST_bases");
+        loc.check_at(if ns == nb { "msm_chunks" } else { "msm_chunks_bases_longer" }, gi == Some(want) || (ns < nb && gi == Some(want_front)), || {
+            format!("{}: got {:?} (oracle index {:?}) want {} (or, pairing with the first bases, {})", desc(), got, gi, tg.pt(want), tg.pt(want_front))
         });
     });
     if !big_streams {
@@ -845,7 +868,8 @@ fn digits_case<const N: usize>(loc: &mut Loc, a: [u64; N], w: usize, num_bits: u
     let desc = || format!("make_digits(a={a:#x?}, w={w}, num_bits={num_bits}) = {got:?}");
     loc.class_if(num_bits == 0, "digits:num_bits=0_means_bits(a)");
     loc.class_if(dc == 0, "digits:empty");
-    loc.check_at("make_digits_len", got.len() == dc, || format!("{}: want {dc} digits", desc()));
+    // the digit count and the digit ranges belong to the PRIVATE recoding behind the hook: observed, not judged
+    loc.class_if(got.len() == dc, "observed:digits_count=ceil(num_bits/w)");
     if bits > eff {
         // num_bits does not cover a: msm never does this (scalars are < r < 2^num_bits); nothing is demanded
         loc.class("digits:num_bits_does_not_cover_a");
@@ -866,10 +890,8 @@ fn digits_case<const N: usize>(loc: &mut Loc, a: [u64; N], w: usize, num_bits: u
     loc.check_at("make_digits_sum", sum == SBig::from(ba.clone()), || format!("{}: digits sum to {sum}", desc()));
     let half = 1i64 << (w - 1);
     let ok_inner = got.iter().take(got.len().saturating_sub(1)).all(|d| d.abs() <= half);
-    loc.check_at("make_digits_range", ok_inner, || format!("{}: a digit before the last exceeds 2^(w-1) in absolute value", desc()));
-    // the last digit absorbs the final carry; the bucket arrays have 2^w entries, so |d| <= 2^w is what msm needs
     let ok_last = got.last().map(|d| d.abs() <= (1i64 << w)).unwrap_or(true);
-    loc.check_at("make_digits_last", ok_last, || format!("{}: last digit exceeds 2^w", desc()));
+    loc.class_if(ok_inner && ok_last, "observed:digits_within_2^(w-1)_(last:2^w)");
 }
 
 fn digits_checks(ctx: &mut Ctx, real_scalars: &[[u64; 4]]) {
@@ -1159,6 +1181,41 @@ fn real_checks<G: VariableBaseMSM>(ctx: &mut Ctx, rc: &Real<G>, heavy: bool) {
             real_case(rc, loc, &items, false, &|| format!("n=3 {}", show(&items)));
         });
     }
+    // checked / unchecked length mismatch on the real group - for EVERY real group: the target group is the only one
+    // whose `msm` is the trait default (its `Err` arm is executed nowhere else)
+    let side: u64 = if heavy { 4 } else { 5 };
+    ctx.sweep(&format!("real/{}/len_mismatch", rc.name), side * side, |i, loc| {
+        let [nbs, nsc] = unrank(i, [side, side]);
+        let (nbs, nsc) = (nbs as usize, nsc as usize);
+        let m = nbs.min(nsc);
+        let bases: Vec<Base<G>> = (0..nbs).map(|j| rc.run_b[j].into()).collect();
+        let bigs: Vec<Big<G>> = (0..nsc).map(|j| Big::<G>::try_from(rc.run_k[j + 1].clone()).ok().unwrap()).collect();
+        let scalars: Vec<Sc<G>> = bigs.iter().map(|b| Sc::<G>::from_bigint(*b).unwrap()).collect();
+        let mut want = G::zero();
+        for j in 0..m {
+            want = want + dbl_add(&rc.run_b[j], &rc.run_k[j + 1]);
+        }
+        let res = G::msm(&bases, &scalars);
+        if nbs != nsc {
+            loc.class("len_mismatch_checked");
+            loc.class("len_mismatch_unchecked");
+            loc.class_if(rc.cfg_msm.is_none(), "len_mismatch:trait_default_msm_Err_arm");
+            loc.check_at("msm", matches!(res, Err(e) if e == m), || format!("{} |bases|={nbs} |scalars|={nsc}: want Err({m}) got {:?}", rc.name, res));
+        } else {
+            loc.check_at("msm", matches!(&res, Ok(v) if same(v, &want)), || format!("{} |bases|={nbs} |scalars|={nsc}: want Ok(sum) got {:?}", rc.name, res));
+        }
+        if let Some(f) = rc.cfg_msm {
+            let res = f(&bases, &scalars);
+            if nbs != nsc {
+                loc.check_at("config_msm", matches!(res, Err(e) if e == m), || format!("{} |bases|={nbs} |scalars|={nsc}: want Err({m}) got {:?}", rc.name, res));
+            } else {
+                loc.check_at("config_msm", matches!(&res, Ok(v) if same(v, &want)), || format!("{} |bases|={nbs} |scalars|={nsc}: want Ok(sum) got {:?}", rc.name, res));
+            }
+        }
+        for (site, got) in [("msm_unchecked", G::msm_unchecked(&bases, &scalars)), ("msm_bigint", G::msm_bigint(&bases, &bigs)), ("msm_bigint_plain", msm_bigint_plain::<G>(&bases, &bigs)), ("msm_bigint_signed", msm_bigint_signed::<G>(&bases, &bigs))] {
+            loc.check_at(site, same(&got, &want), || format!("{} |bases|={nbs} |scalars|={nsc}: got {:?} want the sum over the first {m} pairs {:?}", rc.name, norm(&got), norm(&want)));
+        }
+    });
     // n in {31, 32, 33}: deviations at the two ends of the long base vectors
     if heavy {
         return;
@@ -1209,31 +1266,219 @@ fn real_checks<G: VariableBaseMSM>(ctx: &mut Ctx, rc: &Real<G>, heavy: bool) {
             });
         }
     }
-    // checked / unchecked length mismatch on the real group
-    ctx.sweep(&format!("real/{}/len_mismatch", rc.name), 25, |i, loc| {
-        let [nbs, nsc] = unrank(i, [5, 5]);
-        let (nbs, nsc) = (nbs as usize, nsc as usize);
-        let m = nbs.min(nsc);
-        let bases: Vec<Base<G>> = (0..nbs).map(|j| rc.run_b[j].into()).collect();
-        let bigs: Vec<Big<G>> = (0..nsc).map(|j| Big::<G>::try_from(rc.run_k[j + 1].clone()).ok().unwrap()).collect();
-        let scalars: Vec<Sc<G>> = bigs.iter().map(|b| Sc::<G>::from_bigint(*b).unwrap()).collect();
-        let mut want = G::zero();
-        for j in 0..m {
-            want = want + dbl_add(&rc.run_b[j], &rc.run_k[j + 1]);
-        }
-        let res = G::msm(&bases, &scalars);
-        if nbs != nsc {
-            loc.class("len_mismatch_checked");
-            loc.class("len_mismatch_unchecked");
-            loc.check_at("msm", matches!(res, Err(e) if e == m), || format!("{} |bases|={nbs} |scalars|={nsc}: want Err({m}) got {:?}", rc.name, res));
-        } else {
-            loc.check_at("msm", matches!(&res, Ok(v) if same(v, &want)), || format!("{} |bases|={nbs} |scalars|={nsc}: want Ok(sum) got {:?}", rc.name, res));
-        }
-        for (site, got) in [("msm_unchecked", G::msm_unchecked(&bases, &scalars)), ("msm_bigint", G::msm_bigint(&bases, &bigs)), ("msm_bigint_plain", msm_bigint_plain::<G>(&bases, &bigs))] {
-            loc.check_at(site, same(&got, &want), || format!("{} |bases|={nbs} |scalars|={nsc}: got {:?} want the sum over the first {m} pairs {:?}", rc.name, norm(&got), norm(&want)));
-        }
-    });
     let _ = (&rc.r, &rc.bg);
+}
+
+// =====================================================================================================
+// real groups, long vectors: scalars cycled over a boundary alphabet, bases from a small set (identity and repeated
+// bases included); every slice entry point and BOTH kernels behind the hooks; oracle = naive sum of k*B terms taken
+// from a table built with the reference double-and-add
+// =====================================================================================================
+fn real_cycled<G: VariableBaseMSM>(ctx: &mut Ctx, name: &'static str, ns: &[usize], extra: Option<Base<G>>, cfg_msm: Option<fn(&[Base<G>], &[Sc<G>]) -> Result<G, usize>>) {
+    let r: BigUint = Sc::<G>::MODULUS.into();
+    let nb = Sc::<G>::MODULUS_BIT_SIZE as usize;
+    ctx.validate(r.bits() as usize == nb, &format!("{name}: modulus bit size"));
+    let one = BigUint::one();
+    let two = |e: usize| BigUint::one() << e;
+    let nl = Sc::<G>::MODULUS.as_ref().len();
+    let generic = algebra_mc::refmodel::zmod::from_limbs(&(0..nl).map(|i| GENERIC64.rotate_left(11 * i as u32 + 3)).collect::<Vec<_>>()) % &r;
+    // (the first eight in this order: the cycle of the work list)
+    let mut ks: Vec<(String, BigUint)> = vec![
+        ("r-1".into(), &r - &one),
+        ("r-2".into(), &r - 2u32),
+        ("2^(bits-1)".into(), two(nb - 1)),
+        ("2^(bits-1)+1".into(), two(nb - 1) + &one),
+        ("(r-1)/2".into(), (&r - &one) >> 1),
+        ("1".into(), one.clone()),
+        ("0".into(), BigUint::from(0u8)),
+        ("generic".into(), generic),
+        ("2^64-1".into(), two(64) - &one),
+        ("2^64".into(), two(64)),
+        ("2^(bits-1)-1".into(), two(nb - 1) - &one),
+    ];
+    ks.retain(|k| k.1 < r);
+    ctx.validate(ks.len() == 11, &format!("{name}: cycled scalar alphabet below r"));
+    let gen = G::generator();
+    let mut bg: Vec<G> = vec![G::zero(), gen, -gen];
+    let mut acc = gen;
+    for j in 2..=13usize {
+        acc = acc + gen;
+        if [2, 3, 5, 8, 13].contains(&j) {
+            bg.push(acc);
+        }
+    }
+    let mut bnames: Vec<String> = ["O", "G", "-G", "2G", "3G", "5G", "8G", "13G"].iter().map(|x| x.to_string()).collect();
+    if let Some(x) = extra {
+        bg.push(G::from(x));
+        bnames.push("X(outside the subgroup)".into());
+    }
+    let bb: Vec<Base<G>> = bg.iter().map(|b| (*b).into()).collect();
+    let outside: Vec<bool> = bg.iter().map(|b| !dbl_add(b, &r).is_zero()).collect();
+    ctx.validate(!outside[..8].iter().any(|x| *x) && (extra.is_none() || outside[8]), &format!("{name}: r*B = O exactly for the subgroup bases (oracle)"));
+    let kbi: Vec<Big<G>> = ks.iter().map(|k| Big::<G>::try_from(k.1.clone()).ok().expect("fits")).collect();
+    let ksc: Vec<Sc<G>> = kbi.iter().map(|k| Sc::<G>::from_bigint(*k).expect("below r")).collect();
+    ctx.validate(ksc.iter().zip(&ks).all(|(s, k)| Into::<BigUint>::into(s.into_bigint()) == k.1), &format!("{name}: scalar conversion"));
+    let prod: Vec<Vec<G>> = bg.iter().map(|b| ks.iter().map(|k| dbl_add(b, &k.1)).collect()).collect();
+    let (nbases, nks) = (bb.len(), ks.len());
+    let nv = 3u64;
+    ctx.bound(&format!("real_cycled.{name}"), format!("n in {ns:?} x {nv} arrangements; scalars cycled over {:?}; bases {:?}; bits(r) = {nb} ({} limbs)", ks.iter().map(|k| k.0.clone()).collect::<Vec<_>>(), bnames, nl));
+    ctx.sweep(&format!("real_cycled/{name}"), ns.len() as u64 * nv, |i, loc| {
+        let [v, ni] = unrank(i, [nv, ns.len() as u64]);
+        let n = ns[ni as usize];
+        let v = v as usize;
+        // arrangement v: scalar i -> alphabet[(i + v) % |K|], base i -> B[(3i + v + i / |K|) % |B|]
+        let item = |i: usize| ((3 * i + v + i / nks) % nbases, (i + v) % nks);
+        let mut want = G::zero();
+        let mut bases: Vec<Base<G>> = Vec::with_capacity(n);
+        let mut scalars: Vec<Sc<G>> = Vec::with_capacity(n);
+        let mut bigs: Vec<Big<G>> = Vec::with_capacity(n);
+        let c = window_c(n);
+        let dc = nb.div_ceil(c);
+        let (mut carry, mut neg, mut top) = (false, false, false);
+        for i in 0..n {
+            let (b, k) = item(i);
+            want = want + prod[b][k];
+            bases.push(bb[b]);
+            scalars.push(ksc[k]);
+            bigs.push(kbi[k]);
+            if i < nks {
+                let (digits, cl) = model_recode(&ks[k].1, c, dc);
+                carry |= dc >= 2 && cl;
+                neg |= digits.iter().any(|d| *d < 0);
+            }
+            top |= ks[k].1.bit(nb as u64 - 1);
+            loc.class_if(outside[b], "base_outside_subgroup");
+            loc.class_if(b == 0, "identity_base");
+        }
+        loc.class(if n < 32 { "n<32" } else { "n>=32" });
+        loc.class_if(n > nbases, "repeated_base");
+        loc.class("plain_bucket_variant");
+        loc.class("real_cycled_scalars");
+        loc.class_if(carry, "digit_carry_into_last_window");
+        loc.class_if(c >= 7 && dc >= 3, "real:c>=7_three_or_more_windows");
+        loc.class_if(c >= 7 && neg, "real:negative_digit(c>=7)");
+        loc.class_if(nb % 64 == 0, "real:scalar_bits_multiple_of_64");
+        loc.class_if(nl > 4, "real:scalar_field_of_more_than_4_limbs");
+        loc.class_if((nb - 1) % c == 0, "real:(bits-1)_divisible_by_window");
+        loc.class_if((nb + 1) % c == 0, "real:(bits+1)_divisible_by_window");
+        loc.class_if(nb % c == 0, "real:bits_divisible_by_window");
+        loc.class_if(top && n < 32, "real:top_bit_scalar_n<32");
+        loc.class_if(top && n == 32, "real:top_bit_scalar_n=32");
+        let desc = || format!("{name} n={n} arrangement {v} (scalar i = alphabet[(i+{v}) % {nks}], base i = B[(3i+{v}+i/{nks}) % {nbases}]; first terms {:?})", (0..n.min(4)).map(|i| format!("{}*{}", ks[item(i).1].0, bnames[item(i).0])).collect::<Vec<_>>());
+        if loc.sampling() {
+            loc.sample(desc());
+        }
+        let cmp = |loc: &mut Loc, site: &str, got: &G| {
+            loc.check_at(site, same(got, &want), || format!("{}: got {:?} want {:?}", desc(), norm(got), norm(&want)));
+        };
+        match G::msm(&bases, &scalars) {
+            Ok(g) => cmp(loc, "msm", &g),
+            Err(e) => loc.fail_at("msm", format!("{}: equal lengths but Err({e})", desc())),
+        }
+        if let Some(f) = cfg_msm {
+            match f(&bases, &scalars) {
+                Ok(g) => cmp(loc, "config_msm", &g),
+                Err(e) => loc.fail_at("config_msm", format!("{}: equal lengths but Err({e})", desc())),
+            }
+        }
+        cmp(loc, "msm_unchecked", &G::msm_unchecked(&bases, &scalars));
+        cmp(loc, "msm_bigint", &G::msm_bigint(&bases, &bigs));
+        cmp(loc, "msm_bigint_plain", &msm_bigint_plain::<G>(&bases, &bigs));
+        cmp(loc, "msm_bigint_signed", &msm_bigint_signed::<G>(&bases, &bigs));
+        let (bs, ss) = (bases.as_slice(), scalars.as_slice());
+        cmp(loc, "msm_chunks", &G::msm_chunks(&bs, &ss));
+    });
+}
+
+/// the incremental accumulators on a real curve: 100 adds over 80 distinct bases (every tenth add repeats the base
+/// of the add before it), buffer sizes 1, 32, 33 (several flushes), `add` by value and by reference
+fn real_accumulators<G: VariableBaseMSM>(ctx: &mut Ctx, name: &'static str) {
+    let r: BigUint = Sc::<G>::MODULUS.into();
+    let nb = Sc::<G>::MODULUS_BIT_SIZE as usize;
+    let one = BigUint::one();
+    let kv: Vec<BigUint> = vec![&r - &one, one.clone(), BigUint::from(0u8), (&r - &one) >> 1, (BigUint::one() << 64usize) - &one, BigUint::one() << (nb - 1), BigUint::from(GENERIC64) * BigUint::from(GENERIC64) % &r];
+    let gen = G::generator();
+    let mut pts: Vec<G> = Vec::new();
+    let mut acc = G::zero();
+    for _ in 0..80 {
+        acc = acc + gen;
+        pts.push(acc);
+    }
+    let nadds = 100usize;
+    let mut seq: Vec<(usize, usize)> = Vec::new(); // (base index, scalar index)
+    let mut next = 0usize;
+    for i in 0..nadds {
+        let b = if i % 10 == 9 { seq[i - 1].0 } else { next % 80 };
+        if i % 10 != 9 {
+            next += 1;
+        }
+        seq.push((b, i % kv.len()));
+    }
+    let mut want = G::zero();
+    for (b, k) in &seq {
+        want = want + dbl_add(&pts[*b], &kv[*k]);
+    }
+    let bb: Vec<Base<G>> = pts.iter().map(|p| (*p).into()).collect();
+    let kbi: Vec<Big<G>> = kv.iter().map(|k| Big::<G>::try_from(k.clone()).ok().expect("fits")).collect();
+    let ksc: Vec<Sc<G>> = kbi.iter().map(|k| Sc::<G>::from_bigint(*k).expect("below r")).collect();
+    let kinds = [Acc::ChunkedNew, Acc::ChunkedWithSize, Acc::HashMap];
+    let bufs = [1usize, 32, 33];
+    ctx.bound(&format!("real_accumulators.{name}"), format!("{nadds} adds over 80 distinct bases (i+1)G, every tenth add repeats the previous base; scalars cycled over r-1, 1, 0, (r-1)/2, 2^64-1, 2^(bits-1), generic; ChunkedPippenger::new / with_size / HashMapPippenger x buffer sizes {bufs:?} x add by value / by reference"));
+    ctx.sweep(&format!("real_accumulators/{name}"), (kinds.len() * bufs.len() * 2) as u64, |i, loc| {
+        let [ik, ib, byref] = unrank(i, [kinds.len() as u64, bufs.len() as u64, 2]);
+        let (kind, buf, byref) = (kinds[ik as usize], bufs[ib as usize], byref == 1);
+        // model of the buffering (labels only)
+        let flushes = match kind {
+            Acc::HashMap => {
+                let mut m = std::collections::BTreeSet::new();
+                let mut f = 0;
+                for (b, _) in &seq {
+                    m.insert(*b);
+                    if m.len() == buf {
+                        f += 1;
+                        m.clear();
+                    }
+                }
+                f
+            }
+            _ => nadds / buf,
+        };
+        loc.class_if(flushes >= 1, "stream:flush_on_full");
+        loc.class_if(flushes >= 2, "stream:flush_more_than_once");
+        loc.class_if(flushes >= 2 && buf > 1, "stream:real_curve_two_flushes_of_a_buffer>=32");
+        loc.class_if(byref, "stream:add_by_reference");
+        loc.class("repeated_base");
+        loc.class_if(kind == Acc::HashMap, "hashmap_merge");
+        if loc.sampling() {
+            loc.sample(format!("{name}: {kind:?} buf_size={buf} by_reference={byref}: {nadds} adds, model flushes before finalize = {flushes}"));
+        }
+        let got: G = match kind {
+            Acc::ChunkedNew | Acc::ChunkedWithSize => {
+                let mut p = if kind == Acc::ChunkedNew { ChunkedPippenger::<G>::new(buf) } else { ChunkedPippenger::<G>::with_size(buf) };
+                for (b, k) in &seq {
+                    if byref {
+                        p.add(&bb[*b], &kbi[*k]);
+                    } else {
+                        p.add(bb[*b], kbi[*k]);
+                    }
+                }
+                p.finalize()
+            }
+            Acc::HashMap => {
+                let mut p = HashMapPippenger::<G>::new(buf);
+                for (b, k) in &seq {
+                    if byref {
+                        p.add(&bb[*b], &ksc[*k]);
+                    } else {
+                        p.add(bb[*b], ksc[*k]);
+                    }
+                }
+                p.finalize()
+            }
+        };
+        loc.ops(nadds as u64);
+        loc.check_at("finalize", same(&got, &want), || format!("{name}: {kind:?} buf_size={buf} by_reference={byref} after {nadds} adds: finalize = {:?} want {:?}", norm(&got), norm(&want)));
+    });
 }
 
 // =====================================================================================================
@@ -1281,20 +1526,35 @@ fn main() {
         "msm_chunks:several_steps",
         "digits:window_straddles_limbs",
         "real_255bit_recoding",
-        "last_digit=2^c",
-        "negative_digit(c=3)",
-        "negative_digit(c=5,6)",
-        "negative_digit(c>=7)",
+        // (last_digit=2^c, negative_digit(c=3 | c=5,6 | c>=7) stay as classes; they are keyed to a transcription of
+        // the window rule, so the mandatory versions are the ones that hold for every window size)
+        "negative_digit(every_window_size)",
+        "digit_carry_into_last_window(every_window_size)",
+        "stream:flush_more_than_once",
+        "stream:real_curve_two_flushes_of_a_buffer>=32",
+        "stream:add_by_reference",
+        "len_mismatch:trait_default_msm_Err_arm",
+        "msm_chunks:bases_longer_n>=32",
+        "real_cycled_scalars",
+        "real:c>=7_three_or_more_windows",
+        "real:negative_digit(c>=7)",
+        "real:scalar_bits_multiple_of_64",
+        "real:scalar_field_of_more_than_4_limbs",
+        "real:(bits-1)_divisible_by_window",
+        "real:(bits+1)_divisible_by_window",
+        "real:top_bit_scalar_n<32",
+        "real:top_bit_scalar_n=32",
     ]);
     ctx.assume("oracle (toy groups): index addition table of the textbook affine group law (GroupTable), k*P by repeated table addition; projective results decoded with model arithmetic");
     ctx.assume("oracle (shipped groups): double-and-add written in the harness on the group's generic `+` (C03's subject), results compared after normalisation");
     ctx.assume("scalars are canonical (k < r); for bases outside the prime-order subgroup the sum is over the integers k_i");
-    ctx.assume("msm_chunks with fewer scalars than bases pairs the scalars with the LAST bases (library stream convention, code comment 'align the streams'); more scalars than bases is refused by an assert (recorded, not demanded)");
-    ctx.assume("make_digits: when num_bits does not cover a only the digit count is demanded (msm never does that)");
+    ctx.assume("msm_chunks with fewer scalars than bases: which end of the base stream the scalars are paired with is not documented (only a code comment 'align the streams'); pairing with the LAST or with the FIRST |scalars| bases is accepted and the observed one recorded (classes observed:msm_chunks_*); more scalars than bases is refused by an assert (recorded, not demanded)");
+    ctx.assume("make_digits (private recoding behind the hook): only 'the digits reconstruct the scalar' (sum d_i 2^(w i) = a) is demanded, and only when num_bits covers a (msm never does otherwise); digit count and digit ranges are recorded as observed:* classes");
+    ctx.assume("no group with ScalarMul::NEGATION_IS_CHEAP == false exists in the repository (short Weierstrass, twisted Edwards: true; PairingOutput: TargetField::INVERSE_IS_FAST, true for every shipped pairing - validated at start-up), so the plain-bucket dispatch arm of msm_bigint is reachable only through the verification hook, which is how it is exercised here");
     ctx.assume("history part: bases inside the prime-order subgroup (HashMapPippenger merges scalars mod r)");
     ctx.bound("small", format!("n in 0..={}, all (B x K)^n", ctx.t(3, 4)));
     ctx.bound("large", format!("n in {LARGE_N:?}; deviation positions {} x alphabet B x K; deviation <= {}", if ctx.quick() { "{0, 1, n/2, n-1}" } else { "{0, 1, 2, n/2-1, n/2, n-2, n-1}" }, if ctx.quick() { "2 for n <= 257, <= 1 above" } else { "2" }));
-    ctx.bound("len_mismatch", "(|bases|,|scalars|) in {0..4}^2 + {31,32,33}^2 + 8 far pairs, 3 content variants");
+    ctx.bound("len_mismatch", "(|bases|,|scalars|) in {0..4}^2 + {31,32,33}^2 + 11 far pairs (incl. (70,33), (33,70), (129,128)), 3 content variants; real groups: {0..4}^2 (bls12_381 target group, trait-default msm: {0..3}^2)");
     ctx.bound("history.depth", ctx.t(4u64, 6u64));
     ctx.bound("history.buffer_sizes", format!("1..={}", ctx.t(5, 7)));
     ctx.bound("make_digits", "1 limb: a < 2^12, w 2..=13, num_bits {0,7,8,12,13,64}; boundary values/2 limbs (L10^2)/4 limbs (dev<=2 L10): w 2..=24");
@@ -1335,7 +1595,25 @@ fn main() {
     let ed = Real::<ark_ed_on_bls12_381::EdwardsProjective>::new(&mut ctx, "ed_on_bls12_381", Some(edx), Some(<ark_ed_on_bls12_381::JubjubConfig as te::TECurveConfig>::msm));
     // target group of bls12_381: the trait-default `msm` (no configuration override) on a group whose MulBase is itself
     let gt = Real::<PairingOutput<ark_bls12_381::Bls12_381>>::new(&mut ctx, "bls12_381_gt", None, None);
-    ctx.validate(!<PairingOutput<ark_bls12_381::Bls12_381> as ScalarMul>::NEGATION_IS_CHEAP || true, "gt");
+    {
+        // the assumption above, checked for every shipped pairing target group and the two curve models
+        let cheap = [
+            <PairingOutput<ark_bls12_381::Bls12_381> as ScalarMul>::NEGATION_IS_CHEAP,
+            <PairingOutput<ark_bls12_377::Bls12_377> as ScalarMul>::NEGATION_IS_CHEAP,
+            <PairingOutput<ark_bn254::Bn254> as ScalarMul>::NEGATION_IS_CHEAP,
+            <PairingOutput<ark_bw6_761::BW6_761> as ScalarMul>::NEGATION_IS_CHEAP,
+            <PairingOutput<ark_bw6_767::BW6_767> as ScalarMul>::NEGATION_IS_CHEAP,
+            <PairingOutput<ark_cp6_782::CP6_782> as ScalarMul>::NEGATION_IS_CHEAP,
+            <PairingOutput<ark_mnt4_298::MNT4_298> as ScalarMul>::NEGATION_IS_CHEAP,
+            <PairingOutput<ark_mnt4_753::MNT4_753> as ScalarMul>::NEGATION_IS_CHEAP,
+            <PairingOutput<ark_mnt6_298::MNT6_298> as ScalarMul>::NEGATION_IS_CHEAP,
+            <PairingOutput<ark_mnt6_753::MNT6_753> as ScalarMul>::NEGATION_IS_CHEAP,
+            <PairingOutput<ark_test_curves::bls12_381::Bls12_381> as ScalarMul>::NEGATION_IS_CHEAP,
+            <ark_bls12_381::G1Projective as ScalarMul>::NEGATION_IS_CHEAP,
+            <ark_ed_on_bls12_381::EdwardsProjective as ScalarMul>::NEGATION_IS_CHEAP,
+        ];
+        ctx.validate(cheap.into_iter().all(|c| c), "assumption: every shipped group has NEGATION_IS_CHEAP == true (the plain-bucket arm is reachable through the hook only)");
+    }
     let mut real_scalars: Vec<[u64; 4]> = Vec::new();
     for k in g1.kbi.iter() {
         real_scalars.push(k.0);
@@ -1348,6 +1626,23 @@ fn main() {
     real_checks(&mut ctx, &ed, false);
     real_checks(&mut ctx, &g2, false);
     real_checks(&mut ctx, &gt, true);
+    // ---- long vectors with cycled boundary scalars; scalar fields of 4 full limbs (256 bits), 6 and 12 limbs
+    let long_ns: Vec<usize> = vec![129, 1025];
+    real_cycled::<ark_bls12_381::G1Projective>(&mut ctx, "bls12_381_g1", &long_ns, Some(g1x), Some(<ark_bls12_381::g1::Config as sw::SWCurveConfig>::msm));
+    real_cycled::<ark_ed_on_bls12_381::EdwardsProjective>(&mut ctx, "ed_on_bls12_381", &long_ns, Some(edx), Some(<ark_ed_on_bls12_381::JubjubConfig as te::TECurveConfig>::msm));
+    // window-boundary arithmetic depends on bits(r) mod c: secp256k1 (256 bits: bits-1 = 3*5*17), secp384r1 (384 bits:
+    // bits+1 = 5*7*11; c = 11 needs n > 8192: thorough)
+    let sec_ns: Vec<usize> = vec![1, 2, 31, 32, 33, 129, 200, 256];
+    let mut sec384_ns = sec_ns.clone();
+    if th {
+        sec384_ns.push(8193);
+    }
+    real_cycled::<ark_secp256k1::Projective>(&mut ctx, "secp256k1", &sec_ns, None, Some(<ark_secp256k1::Config as sw::SWCurveConfig>::msm));
+    real_cycled::<ark_secp384r1::Projective>(&mut ctx, "secp384r1", &sec384_ns, None, Some(<ark_secp384r1::Config as sw::SWCurveConfig>::msm));
+    let small_ns: Vec<usize> = vec![1, 2, 31, 32, 33];
+    real_cycled::<ark_bw6_761::G1Projective>(&mut ctx, "bw6_761_g1", &small_ns, None, Some(<ark_bw6_761::g1::Config as sw::SWCurveConfig>::msm));
+    real_cycled::<ark_mnt4_753::G1Projective>(&mut ctx, "mnt4_753_g1", &small_ns, None, Some(<ark_mnt4_753::g1::Config as sw::SWCurveConfig>::msm));
+    real_accumulators::<ark_bls12_381::G1Projective>(&mut ctx, "bls12_381_g1");
     ctx.bound("real", format!("bls12_381 G1/G2, ed_on_bls12_381: n<=2 all (B x K)^n with |B|=5, |K|=12; n=3 over 12^3; n in {{31,32,33}} dev<={} at positions {{0,n-1}}; bls12_381 target group: n<=2", ctx.t(1, 2)));
     std::process::exit(ctx.finish());
 }
